@@ -345,6 +345,16 @@ class Hist:
         # entries for ids of existing accessories (anything the server adds for unknown accessories is not judged)
         known = {a for a, _ in ((w["aid"], 0) for w in want)}
         judged = [e for e in entries if e.get("aid") in known]
+        # an id naming an accessory that does not exist has no characteristic: whatever the server answers
+        # for it (nothing on a bridge, a failure entry on a plain accessory), it is never a value
+        for e in entries:
+            if ref.accessory_for(rig.top, e.get("aid")) is None and ("value" in e or e.get("status", 0 if status == 200 else None) == 0):
+                self.fail(
+                    "C11:value-for-unknown-accessory",
+                    f"request {ids}: accessory {e.get('aid')} does not exist, yet the entry for ({e.get('aid')},{e.get('iid')}) "
+                    f"reports success with value {e.get('value', '<none>')!r}",
+                )
+                break
         want_ids = sorted((w["aid"], w["iid"]) for w in want)
         got_ids = sorted((e.get("aid"), e.get("iid")) for e in judged)
         if want_ids != got_ids:
@@ -529,7 +539,13 @@ def gen_history(ctx: Ctx, pool, program=None, n_ops: Optional[int] = None) -> Hi
                 key, acc, s, c = rng.choice(live)
                 ids.append([acc.aid, acc.iid_manager.counter + rng.randrange(1, 9)])  # unknown iid
             else:
-                ids.append([rng.choice([40, 99]), rng.randrange(1, 12)])  # unknown accessory
+                # a run of consecutive ids of one accessory that does not exist, naming iids the
+                # accessory before it in the request owns
+                u = rng.choice([40, 99])
+                prev = ids[-1][1] if ids else rng.randrange(1, 12)
+                ids += [[u, prev + d] for d in range(rng.choice([1, 2, 2, 3]))]
+                if rng.random() < 0.5:
+                    ids.append(pair_of(rng.choice(focus)))
         return ids
 
     def mutate(t):
@@ -588,6 +604,10 @@ def gen_history(ctx: Ctx, pool, program=None, n_ops: Optional[int] = None) -> Hi
                 h.apply({"op": "read_chars", "ids": [pair_of(t), pair_of(rng.choice(live)), pair_of(t)]})
             elif step == "read_unknown":
                 h.apply({"op": "read_chars", "ids": [pair_of(t), [acc.aid, acc.iid_manager.counter + 3], [77, 1]]})
+                # runs of ids of an accessory that does not exist: after, between and before existing ones
+                me = pair_of(t)
+                h.apply({"op": "read_chars", "ids": [me, [99, me[1]], [99, me[1] + 1], me, [40, me[1]], [40, me[1]], [40, 2]]})
+                h.apply({"op": "read_chars", "ids": [[99, me[1]], [99, me[1] + 1], me]})
             elif step[0] == "display_name":
                 h.apply({"op": "display_name", "obj": n, "name": step[1]})
             elif step[0] == "set_value":
